@@ -1,6 +1,7 @@
 package props
 
 import (
+	"strings"
 	"testing"
 
 	"verifharness/core"
@@ -221,6 +222,39 @@ func TestC07(t *testing.T) {
 					if err != nil {
 						r.Fail(caseOf("C07", "sizes", b, err), err)
 						break sizes
+					}
+				}
+			}
+		}
+		// 3b'. the first value followed by a long tail (more than 64 KiB of further input of
+		// every kind): the traversal is about the first value only
+		if e.enumStage("long-tails", "8 first values x 7 tails of 70 KB (spaces then a byte, digits, one string, open brackets of either kind, a second document, garbage) x 3 strategies", true) {
+			firsts := []string{`[1,2]`, `{"a":1}`, `[]`, `{}`, `null`, ` [ {"k":[true]} , "s" ] `, `{"a":{"b":[1,2,3]},"c":"x"}`, `[1,2`}
+			tails := []string{strings.Repeat(" ", 70000) + "x", "," + strings.Repeat("7", 70000), `"` + strings.Repeat("a", 70000) + `"`, strings.Repeat("[", 70000), strings.Repeat("{", 70000),
+				" " + strings.Repeat(`{"k":[1,2,3]} `, 5000), strings.Repeat("\x00\xff", 35000)}
+			idx := 0
+		tails:
+			for _, f := range firsts {
+				for _, tl := range tails {
+					idx++
+					if !e.cfg.Mine(idx) {
+						continue
+					}
+					b := []byte(f + tl)
+					r.Begin("long-tail", b)
+					err := core.Catch(func() error {
+						for _, k := range []byte{'[', '{'} {
+							for _, bits := range []uint64{0, ^uint64(0), 0xAAAAAAAAAAAAAAAA} {
+								if err := one("long-tail", b, k, bits); err != nil {
+									return err
+								}
+							}
+						}
+						return nil
+					})
+					if err != nil {
+						r.Fail(caseOf("C07", "long-tail", b, err), err)
+						break tails
 					}
 				}
 			}
